@@ -2,6 +2,7 @@ package nc
 
 import (
 	"fmt"
+	"go/token"
 	"go/types"
 	"strings"
 
@@ -44,7 +45,7 @@ func appendCall(v ssa.Value) (base ssa.Value, elems []ssa.Value, ok bool) {
 
 // C11 — a phenotype expresses exactly the enabled part of its genome.
 func C11(p *Prog, r *Run) {
-	r.Explanation = "Decided: (1) Genesis provenance on every path of its loops: one NewNNodeCopy(node, node.Trait) per genome node, appended to the all-list always, to the input list exactly for Input/Bias nodes and to the output list exactly for Output nodes, recorded as the node's PhenotypeAnalogue; one NewLinkWithTrait(gene trait, gene weight, analogue of in-node, analogue of out-node, gene recurrence) per gene, exactly when the gene is enabled, appended once to the target's Incoming and once to the source's Outgoing; control nodes only for enabled modules, wired to the analogues of the listed inputs/outputs; the network is assembled from exactly those lists and stored as the genome's phenotype; (2) Organism.Phenotype builds the network iff the cache is empty and stores it, UpdatePhenotype always rebuilds; (3) NodeCount = len(allNodes)+len(controlNodes), LinkCount sums Incoming of the base nodes plus Incoming and Outgoing of the control nodes, Complexity is their sum; (4) the graph view delegates to edgeBetween with the right direction flag and iterates allNodesMIMO, Node returns the node found by the id lookup in allNodesMIMO (the nodeWithID helper or the same search written out / inlined) or nil, From/To return graph.Empty for an absent id; (5) no method with a gonum interface result wraps a possibly-nil pointer (typed nil); (6) From/To list a control node exactly when the scan of its links finds the id, for every control node and every present node; (7) Genesis fails only for a genome without genes or without output nodes. Not decided: edgeBetween's case analysis for control nodes."
+	r.Explanation = "Decided: (1) Genesis provenance on every path of its loops: one NewNNodeCopy(node, node.Trait) per genome node, appended to the all-list always, to the input list exactly for Input/Bias nodes and to the output list exactly for Output nodes, recorded as the node's PhenotypeAnalogue; one NewLinkWithTrait(gene trait, gene weight, analogue of in-node, analogue of out-node, gene recurrence) per gene, exactly when the gene is enabled, appended once to the target's Incoming and once to the source's Outgoing; control nodes only for enabled modules, wired to the analogues of the listed inputs/outputs; the network is assembled from exactly those lists and stored as the genome's phenotype; (2) Organism.Phenotype builds the network iff the cache is empty and stores it, UpdatePhenotype always rebuilds; (3) NodeCount = len(allNodes)+len(controlNodes), LinkCount sums Incoming of the base nodes plus Incoming and Outgoing of the control nodes, Complexity is their sum; (4) the graph view delegates to edgeBetween with the right direction flag and iterates allNodesMIMO, Node returns the node found by the id lookup in allNodesMIMO (the nodeWithID helper or the same search written out / inlined) or nil, From/To return graph.Empty for an absent id; (5) no method with a gonum interface result wraps a possibly-nil pointer (typed nil); (6) From/To list a control node exactly when the scan of its links finds the id, for every control node and every present node; (7) Genesis fails only for a genome without genes or without output nodes; (8) From lists the OutNode of every Outgoing link and To the InNode of every Incoming link of the node (one listing per link, whole list, before any result), and edgeBetween for two ordinary nodes returns nil only after a list holding every link of the asked direction was scanned to its end with every candidate mismatching (directed u->v; undirected both directions). (9) when exactly one id is an ordinary node edgeBetween answers nil only after the matching link list of the control node selected by the other id (Incoming for node->module, Outgoing for module->node; both for an undirected query) was compared completely, or all control nodes were looked at; every link edgeBetween returns was compared equal at its far end with the right id and, for a directed query, leads from u to v; HasEdgeFromTo/HasEdgeBetween/Weight answer `the lookup found a link` (Weight with that link's weight); Nodes lists every element of allNodesMIMO once; nodeWithID returns only a node whose id matched; the node lists of Genesis start empty, the plain network is built only without control genes, and every module link is appended once to the control node's own list. Not decided: that the link returned for a pair joined by several links (parallel forward and recurrent genes) is a particular one of them; uniqueness of node ids is assumed."
 	gen := p.Func(PkgG, "Genome.Genesis")
 	r.Fn(FuncName(gen))
 	tm := NewTermer(gen)
@@ -57,7 +58,7 @@ func C11(p *Prog, r *Run) {
 	cBias := p.Const(PkgN, "BiasNeuron").Val().ExactString()
 
 	sums := NewSummaries(p)
-	r.Rule("C11.1", "Genesis provenance: nodes, links (enabled genes only) and control nodes are built from the genome as stated, on every path of the three loops", func() {
+	r.Rule("C11.1", "Genesis provenance: nodes, links (enabled genes only) and control nodes are built from the genome as stated, on every path of the three loops; the node lists start empty; the network without control nodes is built only for a genome without control genes; every module link is attached once, on the control node's side", func() {
 		nets := append(CallsTo(gen, newNet), CallsTo(gen, newMod)...)
 		if len(nets) != 2 {
 			r.Undecided("Genesis.assembly", p.Pos(gen.Pos()), fmt.Sprintf("%d network constructor calls, expected NewNetwork and NewModularNetwork", len(nets)))
@@ -74,6 +75,36 @@ func C11(p *Prog, r *Run) {
 		}
 		r.Check(mod[0] == plain[0] && mod[1] == plain[1] && mod[2] == plain[2], "Genesis.assembly.same-lists", p.Pos(nets[1].Pos()), "modular and plain networks get the same three node lists", "NewModularNetwork is not given the same in/out/all lists as NewNetwork")
 		r.Check(isParamIdx(tm.Of(plain[3]), 1) && isParamIdx(tm.Of(mod[4]), 1), "Genesis.assembly.id", p.Pos(nets[0].Pos()), "network id from the parameter", "the network id is not the netId parameter")
+		// the four lists start empty and change only by appends (which the path rules below tie to the nodes): a list
+		// made with a length holds nil nodes in front of the expressed ones
+		emptyStart := ""
+		for i, lv := range []ssa.Value{plain[0], plain[1], plain[2], mod[3]} {
+			w := phiWeb(lv)
+			for _, f := range w.Feeders {
+				if _, _, isApp := appendCall(f); isApp {
+					continue
+				}
+				if !c11IsEmptyList(f) {
+					emptyStart = fmt.Sprintf("%s list starts as %s", []string{"input", "output", "all-nodes", "control-node"}[i], tm.Of(f))
+				}
+			}
+		}
+		r.Check(emptyStart == "", "Genesis.lists.empty-start", p.Pos(gen.Pos()), "the input, output, all-nodes and control-node lists start empty and only grow by appends", "a node list of the network does not start empty ("+emptyStart+"): the network gets entries that are no expressed genome node")
+		// the plain constructor (a network without control nodes) is used only for a genome without modules
+		cw := phiWeb(mod[3])
+		isCtl := func(v ssa.Value) bool {
+			if ph, ok := v.(*ssa.Phi); ok && cw.Phis[ph] {
+				return true
+			}
+			return tm.Of(v).String() == "recv.ControlGenes"
+		}
+		plainOnly := false
+		for _, g := range Guards(nets[0].Block()) {
+			if assertsEmptyLen(g.Cond, g.True, isCtl) {
+				plainOnly = true
+			}
+		}
+		r.Check(plainOnly, "Genesis.assembly.plain-without-modules", p.Pos(nets[0].Pos()), "NewNetwork (no control nodes) only when the genome has no control genes", "the network without control nodes is built although the genome may have control genes: enabled modules are not expressed")
 		// --- node loop
 		nodeLoop := InnermostLoop(Loops(gen), inPhi.Block())
 		if nodeLoop == nil || nodeLoop.Header != inPhi.Block() || outPhi.Block() != inPhi.Block() || allPhi.Block() != inPhi.Block() {
@@ -111,24 +142,31 @@ func C11(p *Prog, r *Run) {
 			node := copies[0].Value()
 			a := callArgTerms(tm, copies[0].Common())
 			okArgs := a[0].String() == "recv.Nodes[*]" && a[1].String() == "recv.Nodes[*].Trait"
+			// the role tests of the path, in whatever way the comparison is spelled (operands in either order,
+			// `==` taken or `!=` not taken and the reverse): CmpFact states each outcome as a comparison that holds
 			isIn, isOut := false, false
+			notRole := map[string]bool{} // roles excluded on this path
 			for _, g := range ip.Conds {
-				gt := tm.Of(g.Cond)
-				if gt.Op == "bin" && gt.Name == "==" && g.True && gt.Args[0].String() == "recv.Nodes[*].NeuronType" {
-					switch gt.Args[1].String() {
-					case cInput, cBias:
-						isIn = true
-					case cOutput:
-						isOut = true
-					}
+				x, y, op, isCmp := CmpFact(g.Cond, g.True)
+				if !isCmp || (op != token.EQL && op != token.NEQ) {
+					continue
 				}
-			}
-			// roles excluded on this path
-			notRole := map[string]bool{}
-			for _, g := range ip.Conds {
-				gt := tm.Of(g.Cond)
-				if gt.Op == "bin" && gt.Args[0].String() == "recv.Nodes[*].NeuronType" && ((gt.Name == "==" && !g.True) || (gt.Name == "!=" && g.True)) {
-					notRole[gt.Args[1].String()] = true
+				xt, yt := tm.Of(x), tm.Of(y)
+				if yt.String() == "recv.Nodes[*].NeuronType" {
+					xt, yt = yt, xt
+				}
+				if xt.String() != "recv.Nodes[*].NeuronType" {
+					continue
+				}
+				if op == token.NEQ {
+					notRole[yt.String()] = true
+					continue
+				}
+				switch yt.String() {
+				case cInput, cBias:
+					isIn = true
+				case cOutput:
+					isOut = true
 				}
 			}
 			appended := func(ph *ssa.Phi) (changed, ok bool) {
@@ -260,6 +298,47 @@ func C11(p *Prog, r *Run) {
 		r.Floor("control-node copies", okCG, 1)
 		newLink := p.Func(PkgN, "NewLink")
 		nIn, nOut := 0, 0
+		// wired: on every iteration that builds the module link c it is appended exactly once, to the list `want` of the
+		// control node copy, and to no other link list (a module is wired on the control node's side only)
+		wired := func(c ssa.CallInstruction, want string) bool {
+			l := InnermostLoop(Loops(gen), c.Block())
+			if l == nil {
+				return false
+			}
+			ipaths, _ := EnumIterPaths(gen, l, 200)
+			r.PathsExplored += len(ipaths)
+			n := 0
+			for _, ip := range ipaths {
+				if ip.End != "back" || !ip.OnPath(c) {
+					continue
+				}
+				n++
+				cnt := 0
+				for _, b := range ip.Blocks[:len(ip.Blocks)-1] {
+					for _, in := range b.Instrs {
+						st, ok := in.(*ssa.Store)
+						if !ok {
+							continue
+						}
+						f := StoredField(st)
+						if f == nil || (f.Name() != "Incoming" && f.Name() != "Outgoing") {
+							continue
+						}
+						cnt++
+						holder := c11ViaCtor(sums, gen, tm.Of(st.Addr.(*ssa.FieldAddr).X))
+						base, elems, isApp := appendCall(st.Val)
+						if f.Name() != want || !isCallTo(holder, nnCopy) || len(holder.Args) == 0 || !strings.HasPrefix(holder.Args[0].String(), "recv.ControlGenes[*]") ||
+							!isApp || len(elems) != 1 || elems[0] != c.Value() || c11ViaCtor(sums, gen, tm.Of(base)).String() != holder.String()+"."+want {
+							return false
+						}
+					}
+				}
+				if cnt != 1 {
+					return false
+				}
+			}
+			return n > 0
+		}
 		for _, c := range CallsTo(gen, newLink) {
 			a := callArgTerms(tm, c.Common())
 			l := strings.TrimSuffix(a[0].String(), ".ConnectionWeight")
@@ -268,10 +347,12 @@ func C11(p *Prog, r *Run) {
 				nIn++
 				ok := a[1].String() == l+".InNode.PhenotypeAnalogue" && isCallTo(a[2], nnCopy) && a[3].String() == "false"
 				r.Check(ok, "Genesis.module.input-link", p.Pos(c.Pos()), "module input: analogue of the listed input -> control node", "module input link is "+a[1].String()+" -> "+a[2].String())
+				r.Check(wired(c, "Incoming"), "Genesis.module.input-wired", p.Pos(c.Pos()), "the module input link is appended once to the control node's Incoming list and to no other list", "the module input link is not appended exactly once to the Incoming list of the control node copy (and to nothing else): the module's input is missing from the graph view, or listed on the wrong side")
 			case strings.Contains(l, ".Outgoing[*]"):
 				nOut++
 				ok := isCallTo(a[1], nnCopy) && a[2].String() == l+".OutNode.PhenotypeAnalogue" && a[3].String() == "false"
 				r.Check(ok, "Genesis.module.output-link", p.Pos(c.Pos()), "module output: control node -> analogue of the listed output", "module output link is "+a[1].String()+" -> "+a[2].String())
+				r.Check(wired(c, "Outgoing"), "Genesis.module.output-wired", p.Pos(c.Pos()), "the module output link is appended once to the control node's Outgoing list and to no other list", "the module output link is not appended exactly once to the Outgoing list of the control node copy (and to nothing else): the module's output is missing from the graph view, or listed on the wrong side")
 			default:
 				r.Bad("Genesis.module.link", p.Pos(c.Pos()), "a module link built from "+l)
 			}
@@ -367,7 +448,7 @@ func C11(p *Prog, r *Run) {
 		r.Check(okC, "Complexity", p.Pos(cx.Pos()), "NodeCount()+LinkCount()", "Complexity is not NodeCount()+LinkCount()")
 	})
 
-	r.Rule("C11.4", "graph view delegation: Edge, WeightedEdge, Weight, HasEdgeFromTo use the directed lookup, HasEdgeBetween the undirected one; Node/Nodes cover allNodesMIMO; From/To return graph.Empty for an absent id", func() {
+	r.Rule("C11.4", "graph view delegation: Edge, WeightedEdge, Weight, HasEdgeFromTo use the directed lookup, HasEdgeBetween the undirected one, and answer exactly `a link was found` (Weight: with the weight of that link); Node/Nodes cover allNodesMIMO (every element once; a node is returned only for its own id); From/To return graph.Empty for an absent id", func() {
 		eb := p.Func(PkgN, "Network.edgeBetween")
 		// A query delegates either to edgeBetween(u, v, <direction>) itself or to another query of the same
 		// direction that does (HasEdgeFromTo as `n.Edge(u, v) != nil`, Weight through WeightedEdge), with its two
@@ -423,6 +504,32 @@ func C11(p *Prog, r *Run) {
 				}
 			}
 			r.Check(okN, "graph.nodeWithID", p.Pos(nw.Pos()), "searches allNodesMIMO", "nodeWithID does not search the list that includes the control nodes")
+			// ... and returns an element only where that element's id was compared equal with the id asked for
+			lkw := newC11Lookup(nw, tn, nil)
+			okM := true
+			for _, b := range nw.Blocks {
+				ret, ok := b.Instrs[len(b.Instrs)-1].(*ssa.Return)
+				if !ok || len(ret.Results) != 1 {
+					continue
+				}
+				var visit func(v ssa.Value, conds []Guard, d int)
+				visit = func(v ssa.Value, conds []Guard, d int) {
+					if c11IsNilConst(v) {
+						return
+					}
+					if ph, isPhi := v.(*ssa.Phi); isPhi && d < 6 {
+						for i, e := range ph.Edges {
+							visit(e, c11EdgeConds(ph.Block().Preds[i], ph.Block()), d+1)
+						}
+						return
+					}
+					if !lkw.matchedElem(v, conds) {
+						okM = false
+					}
+				}
+				visit(ret.Results[0], Guards(b), 0)
+			}
+			r.Check(okM, "graph.nodeWithID.match", p.Pos(nw.Pos()), "a node is returned only where its id was compared equal with the id asked for", "nodeWithID can return a node whose id was not compared equal with the id asked for: Node/From/To answer for another node")
 		} else {
 			// no such helper in this tree: each of Node, From and To must carry the search itself
 			var missing []string
@@ -491,10 +598,16 @@ func C11(p *Prog, r *Run) {
 			})
 			r.Check(okS, "graph."+name+".neighbours", p.Pos(fn.Pos()), "collects "+end+" of every "+side+" link", name+" does not collect the "+end+" of every "+side+" link of the node")
 		}
+		r.c11NodesComplete()
+		r.c11QueryResults()
 	})
 
-	r.Rule("C11.6", "graph lookups: edgeBetween compares every node with both ids independently (self-loop queries) and scans until both are found; From/To list every control node that has the id at the far end of one of its links", func() {
+	r.Rule("C11.6", "graph lookups: edgeBetween compares every node with both ids independently (self-loop queries) and scans until both are found; From/To list every control node that has the id at the far end of one of its links; From/To list the far end of EVERY Outgoing/Incoming link of the node; for two ordinary nodes edgeBetween answers nil only after a complete scan, in which every candidate mismatched, of a list that holds every link of the asked direction; with one ordinary node it answers nil only after the matching link list of the control node with the other id (or all control nodes) was compared completely; it returns a link only where that link was found to join the two ids in the asked direction", func() {
 		r.c11GraphLookups()
+		r.c11NeighbourLists()
+		r.c11OrdinaryScans()
+		r.c11ControlScans()
+		r.c11PositiveAnswers()
 	})
 
 	r.Rule("C11.5", "no typed-nil interface results: a pointer is converted to a gonum interface result only where it is known to be non-nil", func() {
